@@ -11,11 +11,12 @@ PROP_FILE = "Properties/C08.v"
 
 TRUSTED = [
     "translator/c08.py (copy policy of Processor.__deepcopy__ / ModelGroup.__deepcopy__ and of the entry points that "
-    "assign on a copy, through the recognisers of translator/c06.py; fails closed); CPython's copy.deepcopy for every class "
-    "without a custom hook",
+    "assign on a copy, through the recognisers of translator/c06.py; range guards of the property setters of Geometry / "
+    "Characteristics / Environment / APDCharacteristics through the recognisers of translator/c12.py; fails closed); "
+    "CPython's copy.deepcopy for every class without a custom hook",
     "correspondence harness: harness/props/c08.py (generators, Gallina emission), harness/drivers/c08.py "
     "(settings tree obtained by introspection of the real objects: declared properties with/without setter, "
-    "vars(), dict items, model arguments, models of a group; hand table of the setters' range guards)",
+    "vars(), dict items, model arguments, models of a group; the setters' range guards are looked up in the regenerated table)",
     "modelled, not verified: Python attribute lookup order (data descriptor, instance dict, class attribute, "
     "__getattr__), str.split/find/slicing, ast.literal_eval on the literal subset",
 ]
@@ -101,6 +102,8 @@ def cv(j) -> str:
 def cguard(g) -> str:
     if g is None:
         return "GAny"
+    if g[0] == "ref":       # the guard the source states for this setter (Gen_C08.v)
+        return f"(guard_of src_setter_guards {core.cstr(g[1])} {core.cstr(g[2])})"
     if g[0] == "range":
         return f"(GRange {core.cz(g[1])} {core.cz(g[2])} {core.cbool(g[3])} {core.cbool(g[4])})"
     return f"(GAbove {core.cz(g[1])} {core.cbool(g[2])})"
@@ -604,8 +607,8 @@ def gen_validate_cases(ctx: Ctx, budget: int):
 
 # ------------------------------------------------------------------------------------------ Coq emission
 
-HEADER = ("From Coq Require Import ZArith List String.\nFrom PyxelV Require Import Model.Keys.\n"
-          "Import ListNotations.\nOpen Scope string_scope.\n")
+HEADER = ("From Coq Require Import ZArith List String.\nFrom PyxelV Require Import Model.Keys Model.KeysWorld.\n"
+          "From PyxelGen Require Import Gen_C08.\nImport ListNotations.\nOpen Scope string_scope.\n")
 WHEADER = ("From Coq Require Import ZArith List String.\nFrom PyxelV Require Import Model.Keys Model.KeysWorld.\n"
            "From PyxelGen Require Import Gen_C08.\nImport ListNotations.\nOpen Scope string_scope.\n")
 
@@ -1054,7 +1057,7 @@ def run(ctx: Ctx):
     try:
         gen = {"Gen_C08.v": tr.translate(ctx.repo)}
     except TranslationError as ex:
-        ctx.broken.append(Broken("translation", "translator/c08.py (copy policy of derived processors)", str(ex)))
+        ctx.broken.append(Broken("translation", "translator/c08.py (copy policy of derived processors, setter guards)", str(ex)))
         ctx.log(f"translation failed (continuing with the fallback table): {ex}")
         gen = {"Gen_C08.v": tr.FALLBACK}
     core.proof_leg(ctx, gen, PROP_FILE)
@@ -1132,16 +1135,16 @@ def replay(ctx: Ctx, rp: dict) -> int:
         return 1
     core.ensure_lib(ctx, targets=core.lib_targets_of([(core.THEORIES / PROP_FILE).read_text()]))
     print("case:", json.dumps(case)[:1500])
+    from translator import c08 as tr
+    gen = ctx.build / "gen"
+    gen.mkdir(parents=True, exist_ok=True)
+    try:
+        text = tr.translate(ctx.repo)
+    except TranslationError:
+        text = tr.FALLBACK
+    (gen / "Gen_C08.v").write_text(text)
+    core.coqc(ctx, gen / "Gen_C08.v", [(gen, "PyxelGen")])
     if case["op"] == "derive":
-        from translator import c08 as tr
-        gen = ctx.build / "gen"
-        gen.mkdir(parents=True, exist_ok=True)
-        try:
-            text = tr.translate(ctx.repo)
-        except TranslationError:
-            text = tr.FALLBACK
-        (gen / "Gen_C08.v").write_text(text)
-        core.coqc(ctx, gen / "Gen_C08.v", [(gen, "PyxelGen")])
         o = core.run_driver(ctx, "c08", [case], workers=1)[0]
         print("implementation now: set =", o.get("set"), " get =", o.get("get"), " shared objects =", o.get("shared"))
         print("  source changed at:", _diff_trees(o["before"], o["orig_after"])[:6])
@@ -1213,8 +1216,8 @@ META = dict(
         "observations are judged inside Coq against the specification. That the implementation behaves like the model is "
         "established by this correspondence, i.e. by testing."),
     level_note=(
-        "Trusted: Coq kernel + vm_compute; translator/c08.py (+ the recognisers of translator/c06.py); the correspondence "
-        "harness and driver (introspection of the objects into the settings tree, hand table of setter range guards); "
+        "Trusted: Coq kernel + vm_compute; translator/c08.py (+ the recognisers of translator/c06.py and c12.py); the correspondence "
+        "harness and driver (introspection of the objects into the settings tree); "
         "Python attribute-lookup semantics and copy.deepcopy as modelled. Assumes public key components (no private "
         "aliases, no list indices), scalar leaves without attributes, the APD coupled triple not compared, the literal "
         "subset stated in the evidence. Quoted strings, lists and tuples of literals are covered by correspondence only."),
